@@ -314,3 +314,54 @@ Definition entered (s : state) : batch :=
   flat_map chand_en (cl s) ++ flat_map bhand_en (fl s).
 Definition places (s : state) : batch := cont s ++ unentered s ++ entered s.
 Definition done_tasks (s : state) : batch := concat (executed s) ++ concat (lost s).
+
+(* ------------------------------------------------------------------ *)
+(* The buffers of the containers (bulkContainer.tasks, chunkContainer.tasks, dbInserter.values):
+   Go slices over backing arrays.  A heap is the list of all backing arrays ever allocated (a
+   cell's length is its capacity, unused capacity holds garbage); a slice is (array, length);
+   nil is None.  append writes in place while there is capacity and otherwise copies into a
+   NEW array (gr: how much spare capacity the runtime adds — any function). *)
+Record slice := mkSl { sl_arr : nat; sl_len : nat }.
+Definition heap := list (list task).
+
+Definition view (hp : heap) (sl : slice) : list task :=
+  firstn (sl_len sl) (nth (sl_arr sl) hp []).
+
+Definition append (gr : nat -> nat) (hp : heap) (o : option slice) (t : task) : heap * slice :=
+  match o with
+  | Some sl =>
+    let a := nth (sl_arr sl) hp [] in
+    if Nat.ltb (sl_len sl) (length a)
+    then (upd hp (sl_arr sl) (upd a (sl_len sl) t), mkSl (sl_arr sl) (S (sl_len sl)))
+    else (hp ++ [firstn (sl_len sl) a ++ t :: repeat 0 (gr (sl_len sl))], mkSl (length hp) (S (sl_len sl)))
+  | None => (hp ++ [t :: repeat 0 (gr O)], mkSl (length hp) 1%nat)
+  end.
+
+Record bufc := mkBuf
+  { b_heap : heap;
+    b_cur : option slice;      (* the container's collecting slice *)
+    b_spare : option slice;    (* used by the pinned buffer-swapping variant only *)
+    b_out : list slice }.      (* the batches RemoveAll has returned, oldest first *)
+
+Definition buf_init : bufc := mkBuf [] None None [].
+
+Inductive bop := BAdd (t : task) | BRemoveAll.
+
+(* AddTask: tasks = append(tasks, task);  RemoveAll: tasks := bc.tasks; bc.tasks = nil; return tasks *)
+Definition buf_step (gr : nat -> nat) (st : bufc) (o : bop) : bufc :=
+  match o with
+  | BAdd t => let '(hp, sl) := append gr (b_heap st) (b_cur st) t in
+              mkBuf hp (Some sl) (b_spare st) (b_out st)
+  | BRemoveAll => match b_cur st with
+                  | Some sl => mkBuf (b_heap st) None (b_spare st) (b_out st ++ [sl])
+                  | None => st
+                  end
+  end.
+
+Definition buf_run (gr : nat -> nat) (st : bufc) (ops : list bop) : bufc :=
+  fold_left (buf_step gr) ops st.
+
+Definition cur_view (st : bufc) : list task :=
+  match b_cur st with Some sl => view (b_heap st) sl | None => [] end.
+Fixpoint added (ops : list bop) : list task :=
+  match ops with [] => [] | BAdd t :: r => t :: added r | BRemoveAll :: r => added r end.
